@@ -44,11 +44,15 @@ type rawActor struct {
 	frames []rawFrame // frames received from the router, in order
 	eof    bool
 	done   chan struct{}
+	stallUntil time.Duration // the actor does not read before this virtual time (a client that stops reading for a while)
 }
 
 func (a *rawActor) readFull(p []byte) bool {
 	n := 0
 	for n < len(p) {
+		if d := a.stallUntil - a.conn.c.S.Elapsed(); d > 0 {
+			time.Sleep(d)
+		}
 		k, err := a.conn.Read(p[n:])
 		n += k
 		if err != nil {
@@ -186,7 +190,7 @@ func runC15a(c *Ctx) {
 	var steps []step
 	ns := g.Range(3, 14)
 	for i := 0; i < ns; i++ {
-		st := step{kind: g.Weighted(4, 6, 1, 1, 1, 6, 1, 3)}
+		st := step{kind: g.Weighted(4, 6, 1, 1, 1, 6, 1, 3, 1)}
 		switch st.kind {
 		case 1:
 			st.payload = bytes.Repeat([]byte{byte('a' + i)}, []int{0, 1, 7, 125, 300}[g.Intn(5)])
@@ -302,11 +306,20 @@ func runC15a(c *Ctx) {
 			loc.Send(&wamp.Publish{Request: loc.NextReq(), Options: wamp.Dict{}, Topic: "u.x", Arguments: wamp.List{sentToActor, strings.Repeat("y", st.size)}})
 		case 6:
 			time.Sleep(time.Duration(g.Range(1, 50)) * time.Millisecond)
+		case 8:
+			// stop reading for a while (stay connected), then read on
+			c.Fault("client_stall")
+			if u := c.S.Elapsed() + time.Duration([]int{5, 200, 4000, 13000, 40000}[g.Intn(5)])*time.Millisecond; u > a.stallUntil {
+				a.stallUntil = u
+			}
 		case 7:
 			a.send(&wamp.Call{Request: req, Options: wamp.Dict{}, Procedure: "p.echo", Arguments: wamp.List{"echo", int(req)}})
 		}
 	}
 	simrt.WaitQuiescent("script-done")
+	if d := a.stallUntil - c.S.Elapsed(); d > 0 {
+		time.Sleep(d) // the actor reads again
+	}
 	time.Sleep(2 * time.Second)
 	simrt.WaitQuiescent("settled")
 	faulty := faults.ResetAfterC > 0 || faults.ResetAfterS > 0 || faults.WriteErrS > 0
